@@ -589,6 +589,12 @@ orc_program_add_constant_str (OrcProgram *program, int size,
     }
   }
 
+  if (size <= 4) {
+    /* same representation as orc_program_add_constant(), whose value is an
+     * int: 0xfffffff7 and -9 are the same 32-bit constant */
+    program->vars[i].value.i = (orc_int32) program->vars[i].value.i;
+  }
+
   for(j=0;j<program->n_const_vars;j++){
     if (program->vars[ORC_VAR_C1 + j].value.i == program->vars[i].value.i &&
         program->vars[ORC_VAR_C1 + j].size == size) {
